@@ -19,6 +19,13 @@
 // Histogram: go[<mode>:<class>|probe=..], go[..|term=..], lex[<variant>/<word>/<idle|busy>],
 // ponder_end[<mode>:<stop|quit|eof>/<budget state>/<ponderhit before?>].
 //
+// Terminators of a mock search include `timer` (timed, not pondering: nothing is written, the
+// driver's hard deadline of up to 200 ms ends the search) and `hit_timer` (pondering + timed:
+// ponderhit, then nothing; the search does not end on the hit and has to be stopped by the deadline
+// armed at the ponderhit).
+//
+// -suite c14 (result "uci/c14", property C14; no Lean driver): see suiteC14 below.
+//
 // The harness is reactive: go (and every other non-async line) is only written after the previous
 // bestmove was read; stop, isready, ponderhit, quit and EOF are written at swept points.
 //
@@ -171,6 +178,7 @@ const (
 	smallDepth = 6    // a real search to this depth ends within a few ms
 	smallNodes = 6000 // ditto (about 15 us per node with the race detector on a loaded machine)
 	smallHard  = 60   // ms
+	timerMax   = 200  // ms: largest hard deadline the mock runs wait for (terminators timer, hit_timer)
 )
 
 // selfEnds: the real search returns by itself (when it is not pondering) within a few ms.
@@ -242,10 +250,14 @@ func genGo(rng *rand.Rand, ponder bool) goTpl {
 		parts = append(parts, fmt.Sprintf("nodes %d", g.nodes))
 	}
 	movetime := func() {
-		if rng.IntN(5) > 0 {
+		switch r := rng.IntN(10); {
+		case r < 6:
 			g.mt = int64(1 + rng.IntN(5))
 			cls = append(cls, "movetime_small")
-		} else {
+		case r < 8:
+			g.mt = int64(30 + rng.IntN(121)) // hard deadline 30..150 ms
+			cls = append(cls, "movetime_mid")
+		default:
 			g.mt = pick[int64](rng, 60000, 3600000)
 			cls = append(cls, "movetime_large")
 		}
@@ -253,10 +265,16 @@ func genGo(rng *rand.Rand, ponder bool) goTpl {
 	}
 	clock := func() {
 		small := func() int64 { return pick[int64](rng, 25, 60, 90, 150) }
-		switch rng.IntN(6) {
+		mid := func() int64 { return pick[int64](rng, 200, 400, 600, 900, 1100) }
+		switch rng.IntN(8) {
 		case 0, 1:
 			g.wt, g.bt = small(), small()
 			cls = append(cls, "clock_small")
+		case 6, 7:
+			// hard deadline between the margin and ~180 ms, own and opponent's clock / increment differ
+			g.wt, g.bt = mid(), mid()
+			g.wi, g.bi = pick[int64](rng, 0, 0, 10, 20), pick[int64](rng, 0, 0, 10, 20)
+			cls = append(cls, "clock_mid")
 		case 2:
 			g.wt, g.bt, g.wi, g.bi = 60000, 60000, 100, 100
 			cls = append(cls, "clock_large")
@@ -275,10 +293,10 @@ func genGo(rng *rand.Rand, ponder bool) goTpl {
 			cls = append(cls, "clock_asym")
 		}
 		parts = append(parts, fmt.Sprintf("wtime %d btime %d", g.wt, g.bt))
-		if g.wi == 0 && rng.IntN(3) == 0 {
+		if g.wi == 0 && g.bi == 0 && rng.IntN(3) == 0 {
 			g.wi, g.bi = int64(rng.IntN(3)), int64(rng.IntN(3))
 			parts = append(parts, fmt.Sprintf("winc %d binc %d", g.wi, g.bi))
-		} else if g.wi != 0 {
+		} else if g.wi != 0 || g.bi != 0 {
 			parts = append(parts, fmt.Sprintf("winc %d binc %d", g.wi, g.bi))
 		}
 	}
@@ -424,7 +442,7 @@ type blockT struct {
 	pos        int // -1: none
 	idle       []int
 	tpl        goTpl
-	term       string // self | stop | quit | eof | hit | timer
+	term       string // self | stop | quit | eof | hit | timer | hit_timer
 	extra      bool   // an additional isready while the search runs
 	burst      int    // additional ponderhit lines while the search runs
 	fixedT     int    // timing of the (non-swept) blocks' probe
@@ -503,8 +521,13 @@ func genSkeleton(rng *rand.Rand) skeleton {
 			}
 			if timed && !ponder && bl.tpl.hardMs(black) <= 5 {
 				terms = append(terms, "timer", "timer")
-			} else if timed && !ponder && bl.tpl.hardMs(black) <= smallHard {
+			} else if timed && !ponder && bl.tpl.hardMs(black) <= timerMax {
 				terms = append(terms, "timer")
+			}
+			if timed && ponder && bl.tpl.hardMs(black) <= timerMax {
+				// ponderhit, then nothing more: the search (which does not end on the hit) has to be
+				// stopped by the driver's own deadline, armed at the ponderhit
+				terms = append(terms, "hit_timer", "hit_timer", "hit_timer", "hit_timer")
 			}
 		} else {
 			terms = []string{"stop", "stop", "quit", "eof"}
@@ -519,7 +542,7 @@ func genSkeleton(rng *rand.Rand) skeleton {
 		bl.term = terms[rng.IntN(len(terms))]
 		bl.postBudget = rng.IntN(2) == 0
 		bl.mock = MockCfg{Infos: rng.IntN(7), EndOnHit: bl.term == "hit"}
-		if bl.term != "hit" && rng.IntN(4) == 0 {
+		if bl.term != "hit" && bl.term != "hit_timer" && rng.IntN(4) == 0 {
 			bl.mock.EndOnHit = true
 		}
 		if !bl.mock.EndOnHit && rng.IntN(3) == 0 {
@@ -628,7 +651,7 @@ func (sk *skeleton) build(id, script, t int) Spec {
 			term = []Step{send("quit", "i:quit", bl.lexTerm)}
 		case "eof":
 			term = []Step{{K: "eof"}}
-		case "hit":
+		case "hit", "hit_timer":
 			term = []Step{send("ponderhit", "i:ponderhit", bl.lexTerm)}
 		case "timer":
 			term = []Step{{K: "sleep", N: int(bl.tpl.hardMs(black))*1000 - 60}}
@@ -1335,6 +1358,409 @@ func tail(s string, n int) string {
 	return s
 }
 
+// ---------------------------------------------------------------------------------------------
+// -suite c14: the hard deadline as the driver enforces it (property C14 at the timer, not at the
+// helper functions).
+//
+// Every case is one timed `go` (mover's clock +- increments, or movetime; plain, `go ponder` with
+// the Ponder option off, or `go ponder` + `ponderhit` with the option on) against a blocking mock
+// search that returns only when its stop channel closes and records that moment.  Nothing else is
+// written by the GUI: the stop channel has to be closed by the driver's own deadline.
+//   - the clock state is put through uci.VerifTimeControl (the driver's own helpers) and the values
+//     are checked against the property: hard > 0; without movetime hard <= remaining and, when more
+//     than the margin remains, hard <= remaining - margin; with movetime soft = hard = movetime; the
+//     values do not change when the opponent's clock and increment change
+//   - the soft target handed to the search (WithSoftTime) equals the helper's soft value
+//   - the stop channel closes, not earlier than hard - 2 ms and not later than hard + 3 s after the
+//     `go` (after the `ponderhit` when pondering) was written; while pondering it does not close.
+
+type c14Case struct {
+	id                 int
+	class              string // clock class
+	variant            string // plain | ponder_option_off | ponder_hit
+	pos                posT
+	wt, bt, wi, bi, mt int64
+	goLine             string
+	ponderMs           int // ponder_hit: time between the start of the search and the ponderhit
+	lexSet, lexPos     lexT
+	lexGo, lexHit      lexT
+	soft, hard         int64 // helper values for the mover
+}
+
+func (c *c14Case) ops() []string {
+	var ops []string
+	if c.variant == "ponder_hit" {
+		ops = append(ops, fmt.Sprintf("send:%q", c.lexSet.apply("setoption name Ponder value true")))
+	}
+	ops = append(ops, fmt.Sprintf("send:%q", c.lexPos.apply(c.pos.text)), fmt.Sprintf("send:%q", c.lexGo.apply(c.goLine)))
+	if c.variant == "ponder_hit" {
+		ops = append(ops, fmt.Sprintf("sleep_ms:%d", c.ponderMs), fmt.Sprintf("send:%q", c.lexHit.apply("ponderhit")))
+	}
+	return append(ops, fmt.Sprintf("expect: stop channel closes %d ms later by the driver's deadline (soft %d)", c.hard, c.soft))
+}
+
+func stmOf(black bool) Color {
+	if black {
+		return Black
+	}
+	return White
+}
+
+// c14Props checks the property on the helper values of one clock state; "" = holds.
+func c14Props(rng *rand.Rand, black bool, wt, bt, wi, bi, mt int64) string {
+	stm := stmOf(black)
+	timed, soft, hard := uci.VerifTimeControl(wt, bt, wi, bi, mt, stm)
+	own, opp := wt, bt
+	if black {
+		own, opp = bt, wt
+	}
+	_ = opp
+	margin := int64(uci.TimeSafetyMargin)
+	switch {
+	case timed != (own > 0 || mt > 0):
+		return fmt.Sprintf("timedMode=%v with remaining %d movetime %d", timed, own, mt)
+	case !timed:
+		return ""
+	case hard <= 0:
+		return fmt.Sprintf("hard deadline %d is not positive", hard)
+	case mt > 0 && (soft != mt || hard != mt):
+		return fmt.Sprintf("movetime %d but soft %d hard %d", mt, soft, hard)
+	case mt <= 0 && hard > own:
+		return fmt.Sprintf("hard deadline %d later than the remaining time %d", hard, own)
+	case mt <= 0 && own > margin && hard > own-margin:
+		return fmt.Sprintf("hard deadline %d does not keep the margin %d of the remaining time %d", hard, margin, own)
+	}
+	// the opponent's clock and increment do not matter
+	for k := 0; k < 3; k++ {
+		w2, b2, wi2, bi2 := wt, bt, wi, bi
+		ot := pick[int64](rng, 0, 1, 45, 1000, 60000, 1000000000)
+		oi := pick[int64](rng, 0, 1, 7, 1000, 100000, 1000000000)
+		if black {
+			w2, wi2 = ot, oi
+		} else {
+			b2, bi2 = ot, oi
+		}
+		t2, s2, h2 := uci.VerifTimeControl(w2, b2, wi2, bi2, mt, stm)
+		if t2 != timed || s2 != soft || h2 != hard {
+			return fmt.Sprintf("soft/hard %d/%d become %d/%d when only the opponent's clock changes to %d inc %d", soft, hard, s2, h2, ot, oi)
+		}
+	}
+	return ""
+}
+
+// genC14 draws one case; maxHard bounds the deadline (ms) the run has to wait for.
+func genC14(rng *rand.Rand, id int, maxHard int64) c14Case {
+	for {
+		c := c14Case{id: id}
+		for black := rng.IntN(2) == 0; ; { // both colours equally often
+			if c.pos = positions[rng.IntN(len(positions))]; c.pos.black == black {
+				break
+			}
+		}
+		margin := int64(uci.TimeSafetyMargin)
+		var own, inc int64
+		switch rng.IntN(7) {
+		case 0:
+			c.class, own, inc = "left<=margin", 1+rng.Int64N(margin), pick[int64](rng, 0, 0, 5, 1000)
+		case 1:
+			c.class, own, inc = "margin<left<2margin", margin+1+rng.Int64N(margin-1), pick[int64](rng, 0, 0, 5, 1000)
+		case 2:
+			c.class, own, inc = "floor(4soft<=margin)", 2*margin+rng.Int64N(200), rng.Int64N(4)
+		case 3:
+			c.class, own, inc = "4soft", 300+rng.Int64N(3*maxHard+1), pick[int64](rng, 0, 0, 10, 20, 40)
+		case 4:
+			c.class, own, inc = "cap(left-margin)", 2*margin+rng.Int64N(maxHard), pick[int64](rng, 200, 1000, 1000000)
+		default:
+			c.class, c.mt = "movetime", 1+rng.Int64N(maxHard)
+			switch rng.IntN(3) {
+			case 0: // movetime alone
+			case 1:
+				own, inc = pick[int64](rng, 1, 20, 45, 60000), pick[int64](rng, 0, 100)
+				c.class = "movetime+clock"
+			default:
+				own, inc = 60000, 1000
+				c.class = "movetime+clock"
+			}
+		}
+		opp, oinc := pick[int64](rng, 0, 1, 45, 300, 60000, 1000000000), pick[int64](rng, 0, 0, 7, 1000, 100000)
+		if rng.IntN(3) == 0 {
+			opp, oinc = own, inc // the usual symmetric report
+		}
+		if c.pos.black {
+			c.bt, c.bi, c.wt, c.wi = own, inc, opp, oinc
+		} else {
+			c.wt, c.wi, c.bt, c.bi = own, inc, opp, oinc
+		}
+		var timed bool
+		timed, c.soft, c.hard = uci.VerifTimeControl(c.wt, c.bt, c.wi, c.bi, c.mt, stmOf(c.pos.black))
+		if !timed || c.hard > maxHard {
+			if c14Props(rng, c.pos.black, c.wt, c.bt, c.wi, c.bi, c.mt) == "" {
+				continue // legitimately outside the budget of this tier: redraw
+			}
+			// a state on which the helpers break the property is kept (reported by the caller)
+		}
+		switch r := rng.IntN(10); {
+		case r < 4:
+			c.variant = "plain"
+		case r < 5:
+			c.variant = "ponder_option_off"
+		default:
+			c.variant = "ponder_hit"
+			c.ponderMs = pick(rng, 0, 1, 5, int(min(c.hard, maxHard))+15)
+		}
+		// the go line: argument groups in random order, absent clocks sometimes written as 0
+		var parts []string
+		if c.wt != 0 || c.bt != 0 || rng.IntN(2) == 0 {
+			parts = append(parts, fmt.Sprintf("wtime %d", c.wt), fmt.Sprintf("btime %d", c.bt))
+		}
+		if c.wi != 0 || c.bi != 0 || rng.IntN(2) == 0 {
+			parts = append(parts, fmt.Sprintf("winc %d", c.wi), fmt.Sprintf("binc %d", c.bi))
+		}
+		if c.mt != 0 {
+			parts = append(parts, fmt.Sprintf("movetime %d", c.mt))
+		}
+		rng.Shuffle(len(parts), func(i, j int) { parts[i], parts[j] = parts[j], parts[i] })
+		if c.variant != "plain" {
+			if rng.IntN(5) == 0 {
+				parts = append(parts, "ponder")
+			} else {
+				parts = append([]string{"ponder"}, parts...)
+			}
+		}
+		c.goLine = strings.Join(append([]string{"go"}, parts...), " ")
+		c.lexSet, c.lexPos, c.lexGo, c.lexHit = genLex(rng), genLex(rng), genLex(rng), genLex(rng)
+		return c
+	}
+}
+
+type c14Enter struct {
+	soft   int64
+	hasHit bool
+}
+
+// c14Mock blocks until its stop channel closes and reports that moment.
+type c14Mock struct {
+	entered chan c14Enter
+	closed  chan time.Time
+}
+
+func (m *c14Mock) Clear()       {}
+func (m *c14Mock) ResizeTT(int) {}
+
+func (m *c14Mock) Go(_ *board.Board, opts ...search.Option) (Score, move.Move, move.Move) {
+	var o search.Options
+	for _, opt := range opts {
+		opt(&o)
+	}
+	m.entered <- c14Enter{soft: o.SoftTime, hasHit: o.PonderHit != nil}
+	ph := o.PonderHit
+	for {
+		select {
+		case <-o.Stop:
+			m.closed <- time.Now()
+			return 0, move.From(E2) | move.To(E4), 0
+		case <-ph:
+			ph = nil
+		}
+	}
+}
+
+type c14Sink struct{ best chan struct{} }
+
+func (s *c14Sink) Write(b []byte) (int, error) {
+	if bytes.HasPrefix(b, []byte("bestmove ")) {
+		select {
+		case s.best <- struct{}{}:
+		default:
+		}
+	}
+	return len(b), nil
+}
+
+// c14BC marks a failure that contradicts the stated mechanism (deadline armed at the ponderhit)
+// rather than the text of the property.
+const c14BC = "mechanism: "
+
+const (
+	c14Early = 2 * time.Millisecond // the channel may close this much before the deadline (clock granularity)
+	c14Late  = 3 * time.Second      // ... and this much after it (loaded machine)
+)
+
+// runC14 executes one case; "" = all assertions hold.  lateMs: how long after the deadline the
+// channel closed (diagnostics only).
+func runC14(c *c14Case) (fail string, lateMs int64) {
+	mock := &c14Mock{entered: make(chan c14Enter, 1), closed: make(chan time.Time, 1)}
+	sink := &c14Sink{best: make(chan struct{}, 1)}
+	pr, pw := io.Pipe()
+	d := uci.NewDriver(uci.WithInput(pr), uci.WithOutput(sink), uci.WithError(io.Discard), uci.WithSearch(mock))
+	runDone := make(chan struct{})
+	go func() {
+		defer close(runDone)
+		d.Run()
+	}()
+	// a write returns when the driver's reader has taken the line (bounded, so that a wedged driver
+	// cannot hang the harness)
+	write := func(l string) {
+		done := make(chan struct{})
+		go func() {
+			pw.Write([]byte(l + "\n"))
+			close(done)
+		}()
+		select {
+		case <-done:
+		case <-time.After(c14Late):
+		}
+	}
+	defer func() {
+		// leave nothing behind: stop a search that is still running, quit, wait for Run
+		select {
+		case <-runDone:
+		default:
+			write("stop")
+			write("quit")
+			select {
+			case <-runDone:
+			case <-time.After(c14Late):
+				if fail == "" {
+					fail = "Run did not return after quit"
+				}
+			}
+		}
+		pw.Close()
+		pr.Close()
+	}()
+	if c.variant == "ponder_hit" {
+		write(c.lexSet.apply("setoption name Ponder value true"))
+	}
+	write(c.lexPos.apply(c.pos.text))
+	t0 := time.Now()
+	write(c.lexGo.apply(c.goLine))
+	var en c14Enter
+	select {
+	case en = <-mock.entered:
+	case <-time.After(c14Late):
+		return "search not started within 3 s of the go", 0
+	}
+	if en.soft != c.soft {
+		return fmt.Sprintf("soft target handed to the search is %d, the helper's value is %d", en.soft, c.soft), 0
+	}
+	if en.hasHit != (c.variant == "ponder_hit") {
+		return fmt.Sprintf("ponderhit channel handed to the search: %v (variant %s)", en.hasHit, c.variant), 0
+	}
+	hard := time.Duration(c.hard) * time.Millisecond
+	if c.variant == "ponder_hit" {
+		select {
+		case <-mock.closed:
+			return c14BC + "stop channel closed while pondering (before the ponderhit, nothing written by the GUI): the deadline is armed at the ponderhit", 0
+		case <-time.After(time.Duration(c.ponderMs) * time.Millisecond):
+		}
+		t0 = time.Now()
+		write(c.lexHit.apply("ponderhit"))
+	}
+	var tc time.Time
+	select {
+	case tc = <-mock.closed:
+	case <-time.After(time.Until(t0.Add(hard + c14Late))):
+		return fmt.Sprintf("hard deadline not enforced: stop channel still open %d ms + 3 s after the %s",
+			c.hard, map[bool]string{true: "ponderhit", false: "go"}[c.variant == "ponder_hit"]), 0
+	}
+	el := tc.Sub(t0)
+	if el < hard-c14Early {
+		return fmt.Sprintf("stop channel closed after %d us, earlier than the hard deadline %d ms", el.Microseconds(), c.hard), 0
+	}
+	lateMs = (el - hard).Milliseconds()
+	select {
+	case <-sink.best:
+	case <-time.After(c14Late):
+		return "no bestmove within 3 s of the stop channel closing", lateMs
+	}
+	write(c.lexGo.apply("quit"))
+	select {
+	case <-runDone:
+	case <-time.After(c14Late):
+		return "Run did not return within 3 s of quit", lateMs
+	}
+	return "", lateMs
+}
+
+func suiteC14(ctx *common.Ctx, workers int) {
+	res := common.NewResult(ctx, "uci/c14", "C14")
+	res.Rule = "a timed go (distinct clock state x plain / ponder+ponderhit) whose blocking search was stopped by the driver's own deadline, with nothing written by the GUI after the go / ponderhit"
+	n := ctx.Pick(600, 6000)
+	maxHard := int64(ctx.Pick(200, 400))
+	cases := make([]c14Case, n)
+	static := make([]string, n)
+	for i := range cases {
+		cases[i] = genC14(ctx.Rng, i, maxHard)
+		c := &cases[i]
+		static[i] = c14Props(ctx.Rng, c.pos.black, c.wt, c.bt, c.wi, c.bi, c.mt)
+	}
+	fails := make([]string, n)
+	late := make([]int64, n)
+	ran := make([]bool, n)
+	var next, nfail atomic.Int64
+	var wg sync.WaitGroup
+	for w := 0; w < workers; w++ {
+		wg.Add(1)
+		go func() {
+			defer wg.Done()
+			for {
+				i := int(next.Add(1)) - 1
+				if i >= n || nfail.Load() >= failCap {
+					return
+				}
+				if static[i] != "" && (cases[i].hard <= 0 || cases[i].hard > 4*maxHard) {
+					continue // nothing sensible to wait for
+				}
+				fails[i], late[i] = runC14(&cases[i])
+				ran[i] = true
+				if fails[i] != "" {
+					nfail.Add(1)
+				}
+			}
+		}()
+	}
+	wg.Wait()
+	var worst int64
+	for i := range cases {
+		c := &cases[i]
+		side := "white"
+		if c.pos.black {
+			side = "black"
+		}
+		res.Evaluations++
+		res.Count("c14["+c.class+"|"+c.variant+"]", 1)
+		res.Count("c14_side["+side+"|"+c.variant+"]", 1)
+		if static[i] != "" {
+			res.Count("helper_property_violated", 1)
+			res.Fail(common.Mismatch{Property: "C14", Kind: "failing-input", Ops: c.ops(),
+				Impl:  fmt.Sprintf("VerifTimeControl(wtime=%d btime=%d winc=%d binc=%d movetime=%d, %s to move): %s", c.wt, c.bt, c.wi, c.bi, c.mt, side, static[i]),
+				Model: "property C14 on the helper values"})
+		}
+		if !ran[i] {
+			res.Count("not_run", 1)
+			continue
+		}
+		if fails[i] != "" {
+			res.Count("deadline_assertion_failed", 1)
+			kind := "failing-input"
+			if strings.HasPrefix(fails[i], c14BC) {
+				kind = "broken-correspondence"
+			}
+			res.Fail(common.Mismatch{Property: "C14", Kind: kind, Ops: c.ops(), Impl: fails[i],
+				Model: fmt.Sprintf("stop channel closes between %d ms - 2 ms and %d ms + 3 s; soft target %d", c.hard, c.hard, c.soft)})
+			continue
+		}
+		worst = max(worst, late[i])
+		res.TracesValidated++
+		res.Nontrivial(fmt.Sprintf("%s|%v|%d %d %d %d %d", c.variant, c.pos.black, c.wt, c.bt, c.wi, c.bi, c.mt))
+		res.Sample(map[string]any{"ops": c.ops()}, 6)
+	}
+	fmt.Fprintf(os.Stderr, "uci/c14: largest lateness of a deadline %d ms\n", worst)
+	res.Notes = append(res.Notes, fmt.Sprintf("%d cases, hard deadlines up to %d ms, %d concurrent drivers; early margin 2 ms, late margin 3 s", n, maxHard, workers))
+	res.Write(ctx)
+}
+
 func main() {
 	child := false
 	for _, a := range os.Args[1:] {
@@ -1348,7 +1774,17 @@ func main() {
 	}
 	workers := flag.Int("workers", 6, "parallel child processes")
 	scripts := flag.Int("scripts", 0, "override the number of scripts")
+	suite := flag.String("suite", "c13", "c13: protocol / concurrency sweep (default); c14: hard deadline enforced by the driver")
 	ctx := common.Parse()
+	switch *suite {
+	case "c13", "all", "":
+	case "c14":
+		suiteC14(ctx, 8)
+		return
+	default:
+		fmt.Fprintln(os.Stderr, "unknown suite", *suite)
+		os.Exit(2)
+	}
 	res := common.NewResult(ctx, "uci", "C13")
 	res.Rule = "a run in which stop/isready/ponderhit/quit/EOF was written while a bestmove was outstanding (distinct recorded traces)"
 	nScripts := ctx.Pick(300, 12000) // x 8 timings; 20 000 scripts measured 731 s idle, 972 s at load 90
